@@ -562,8 +562,8 @@ func genLiveDelete(r *vh.Rand) *Case {
 // every 2 ms, while several clients subscribe one after the other: whatever
 // falls between a client's snapshot and its registration is missing for good.
 func genLive(r *vh.Rand, thorough bool) *Case {
-	if r.Chance(1, 2) {
-		return genLiveDelete(r)
+	if thorough && r.Chance(1, 2) {
+		return genLiveDelete(r) // slow to evaluate: thorough tier only
 	}
 	c := &Case{Family: "live", Live: true, LiveDelayMS: 5 + r.Intn(30), LiveStaggerMS: 15 + r.Intn(25)}
 	c.Requests = []ReqCfg{{Name: "all", Prefix: &GPath{Origin: "openconfig"}, Paths: []GPath{{}}}}
